@@ -198,6 +198,15 @@ def discharge(ctx, site):
             return False, f"`{show(a)} - {cb}` underflows when the minuend is below {cb}; nothing on the path bounds it (known lower bound {lb})"
         if proves_ge(a, b, facts):
             return True, "D2: dominating comparison a >= b"
+        # D7: len(S) - i where i is an index delivered by enumerate over the same S (i < len(S)); UnixStr::len(x) is len(x.0)
+        a0 = strip_casts(a)
+        if isinstance(a0, tuple) and a0[0] == "call" and ((a0[1] or "").endswith(("<impl [T]>::len", "UnixStr::len", "UnixStr::len_with_null")) ) and a0[2]:
+            base = canon(a0[2][0]).replace("*", "").replace("&", "")
+            for x in walk_deep(b, ctx.prov, limit=80):
+                if x[0] == "call" and (x[1] or "").endswith("Iterator::enumerate") and x[2]:
+                    srcs = [canon(y[2][0]).replace("*", "").replace("&", "") for y in walk_deep(x[2][0], ctx.prov, limit=40) if y[0] == "call" and (y[1] or "").endswith("<impl [T]>::iter") and y[2]]
+                    if srcs and all(sx == base or sx == base + ".0" for sx in srcs) and isinstance(strip_casts(b), tuple) and strip_casts(b)[0] == "field" and str(strip_casts(b)[2]) == "0":
+                        return True, "D7: the subtrahend is an enumerate index over the slice whose length is the minuend (index < length)"
         return False, f"`{show(a)} - {show(b)}`: no dominating comparison proves the minuend is the larger"
     if kind == "overflow_add" and len(ops) == 2:
         a, b = ops
@@ -262,4 +271,18 @@ def discharge(ctx, site):
                     if isinstance(en, tuple) and en[0] == "bin" and en[1] == "Sub" and src_of_len(canon(en[2]).replace("*", "")) == src:
                         return True, "range end is len - c of the same slice (the subtraction is a separate site)"
         return False, f"slice range {show(ops[1])} not shown to be within bounds"
+    if kind.startswith(("explicit", "call:panic")):
+        # D8: an assertion whose failing edge contradicts a dominating comparison: `assert!(x - c >= 0)` under `x >= c'` (c' >= c)
+        for f in facts:
+            if f[0] == "cmp" and f[1] == "Lt" and fold(f[3]) == 0:
+                a = strip_casts(f[2])
+                if isinstance(a, tuple) and a[0] == "bin" and a[1] in ("Sub", "SubWithOverflow", "SubUnchecked") and fold(a[3]) is not None:
+                    c, x = fold(a[3]), canon(strip_casts(a[2]))
+                    for g in facts:
+                        if g is f or g[0] != "cmp":
+                            continue
+                        if canon(strip_casts(g[2])) == x and fold(g[3]) is not None and ((g[1] == "Ge" and fold(g[3]) >= c) or (g[1] == "Gt" and fold(g[3]) >= c - 1)):
+                            return True, f"D8: the assertion can only fail under `{show(f[2])} < 0`, which contradicts the dominating `{show(g[2])} {g[1]} {fold(g[3])}`"
+                        if canon(strip_casts(g[3])) == x and fold(g[2]) is not None and ((g[1] == "Le" and fold(g[2]) >= c) or (g[1] == "Lt" and fold(g[2]) >= c - 1)):
+                            return True, "D8: the assertion's failing edge contradicts a dominating comparison"
     return False, f"{kind}: no discharge rule"
